@@ -85,6 +85,20 @@ def one_dfa(acc, spec, scheme, boost=(), native=False, letters='ab'):
     check_dfa(acc, spec, 0, scheme, only=(boost, native), letters=letters)
 
 
+def t_nest(acc, m, shard, nshard):
+    """Thin deep family: (X* . b)*, (b . X*)*, (X* + b)* . X for every X with <= m nodes: nested stars over larger
+    operands (an expression with 10-12 nodes, an automaton with more than ten generated states)."""
+    b = ('s', 'b')
+    for idx, X in rx.trees_up_to(m):
+        if idx % nshard != shard or rx.nodes(X) < 4:
+            continue
+        check_re(acc, ('*', ('.', ('*', X), b)))
+        if idx % 3 == 0:
+            check_re(acc, ('*', ('.', b, ('*', X))))
+        if idx % 3 == 1:
+            check_re(acc, ('.', ('*', ('+', ('*', X), b)), X))
+
+
 def t_re(acc, m, shard, nshard, lo=0):
     for idx, spec in rx.trees_up_to(m):
         if idx % nshard == shard and rx.nodes(spec) > lo:
@@ -105,6 +119,7 @@ def plan(tier, seed):
     def dfa(n, k, depth, ns, scheme='s', stride=1, letters='ab'):
         tasks.extend(('instr', 'mc.props.c06:t_dfa', {'n': n, 'k': k, 'depth': depth, 'shard': s, 'nshard': ns, 'scheme': scheme, 'stride': stride, 'offset': seed, 'letters': letters}) for s in range(ns))
 
+    tasks.extend(('plain', 'mc.props.c06:t_nest', {'m': 7 if tier == 'quick' else 8, 'shard': s_, 'nshard': 32}) for s_ in range(32))
     for (n, k) in ((1, 0), (2, 0), (1, 1), (1, 2), (2, 1), (2, 2)):
         dfa(n, k, 2, 1)
     dfa(2, 1, 1, 1, 'x')
@@ -117,14 +132,22 @@ def plan(tier, seed):
         dfa(3, 1, 2, 4)
         dfa(3, 2, 1, 32)
         dfa(3, 2, 0, 8, stride=8, letters='01')
-        dfa(4, 1, 1, 16, stride=16)
-        bounds = 'RE(8) -> NFA (112 416 trees); DFA(n<=2,k<=2), DFA(3,1) d<=2; DFA(3,2) d<=1; alphabets {a,b} and {0,1} (digit symbols print like the constants 0 and 1); DFA(4,1) stride 1/16 d<=1; name schemes s, q, start/accept'
+        dfa(4, 1, 1, 32)
+        dfa(1, 3, 1, 1)
+        dfa(2, 3, 1, 4)
+        dfa(3, 3, 0, 16, stride=64)
+        dfa(4, 2, 0, 32, stride=256)
+        bounds = 'RE(8) -> NFA (112 416 trees) + nested-star family over RE(7) operands (11-12 nodes); DFA(n<=2,k<=2), DFA(3,1) d<=2; DFA(3,2) d<=1; alphabets {a,b} and {0,1} (digit symbols print like the constants 0 and 1); DFA(4,1) all d<=1; three letters: DFA(1,3), DFA(2,3) d<=1, DFA(3,3) stride 1/64; DFA(4,2) stride 1/256; name schemes s, q, start/accept'
     else:
         re(9, 256)
         dfa(3, 2, 1, 32, letters='01')
         dfa(3, 1, 2, 8)
         dfa(3, 2, 2, 64)
-        dfa(4, 1, 1, 64)
+        dfa(4, 1, 2, 64)
+        dfa(1, 3, 2, 1)
+        dfa(2, 3, 2, 4)
+        dfa(3, 3, 1, 64, stride=8)
+        dfa(4, 2, 1, 64, stride=32)
         dfa(3, 1, 1, 4, 'x')
         bounds = 'RE(9) -> NFA (665 252 trees); alphabets {a,b} and {0,1}; DFA(n<=3,k<=2) d<=2; DFA(4,1) d<=1; name schemes s, q, start/accept'
     return {'tasks': tasks, 'bounds': {'spaces': bounds}, 'exhaustive': True,
